@@ -197,6 +197,54 @@ example : (runU RxState.unsynced [] [100, 120, 119, 119]).2.2 = [true, true, tru
 /-- Non-vacuity of clause 4's hypotheses. -/
 example : (119 ∉ [120, 100]) ∧ ∀ a ∈ [120, 100], a ≤ 119 + 16 := by decide
 
+/-! ## Bounded reordering loses nothing -/
+
+/-- On the specification: a history of pairwise distinct values, none accepted before, all within
+16 of each other and of what was accepted, is accepted entirely - in whatever order it arrives. -/
+theorem specRun_all_accepted (cs : List Nat) : ∀ acc : List Nat, cs.Nodup → (∀ c ∈ cs, c ∉ acc) →
+    (∀ a ∈ acc ++ cs, ∀ b ∈ acc ++ cs, a ≤ b + 16) → specRun acc cs = cs.map (fun _ => true) := by
+  induction cs with
+  | nil => intro _ _ _ _; rfl
+  | cons c cs ih =>
+    intro acc hnd hfresh hspread
+    have hc : specAccept acc c = true :=
+      in_window_once acc c (hfresh c (by simp))
+        (fun a ha => hspread a (by simp [ha]) c (by simp))
+    simp only [specRun, hc, ↓reduceIte, List.map_cons]
+    congr 1
+    rw [List.nodup_cons] at hnd
+    refine ih (c :: acc) hnd.2 ?_ ?_
+    · intro d hd hin
+      rcases List.mem_cons.mp hin with h | h
+      · subst h; exact hnd.1 hd
+      · exact hfresh d (by simp [hd]) h
+    · intro a ha b hb
+      refine hspread a ?_ b ?_
+      · simp only [List.cons_append, List.mem_cons, List.mem_append] at ha ⊢
+        rcases ha with h | h | h
+        · exact Or.inr (Or.inl h)
+        · exact Or.inl h
+        · exact Or.inr (Or.inr h)
+      · simp only [List.cons_append, List.mem_cons, List.mem_append] at hb ⊢
+        rcases hb with h | h | h
+        · exact Or.inr (Or.inl h)
+        · exact Or.inl h
+        · exact Or.inr (Or.inr h)
+
+/-- **Bounded reordering loses nothing (model run)**: on a fresh secure unicast session, any
+history of pairwise distinct counter values that lie within the 16-entry window of each other is
+accepted in full, whatever the order of arrival - no first-time message is mistaken for a
+duplicate. -/
+theorem run_reordered_all_accepted (cs : List Nat) (hnd : cs.Nodup)
+    (hspread : ∀ a ∈ cs, ∀ b ∈ cs, a ≤ b + 16) :
+    (runU RxState.unsynced [] cs).2.2 = cs.map (fun _ => true) := by
+  rw [unicast_is_spec]
+  exact specRun_all_accepted cs [] hnd (fun _ _ h => by simp at h) (by simpa using hspread)
+
+/-- Non-vacuity: a 17-value burst arriving in a scrambled order. -/
+example : (runU RxState.unsynced [] [108, 100, 116, 101, 115, 107]).2.2 =
+    [true, true, true, true, true, true] := by decide
+
 /-! ## Unsecured sessions: a restart of the peer's counter is accepted -/
 
 theorem restart_accepted (s : RxState) (c : Nat) (hs : s.synced = true)
